@@ -106,18 +106,38 @@ UNSAFE_FLAG_PREFIXES = (
 )
 
 
+_VALUE_FLAGS: set | None = None
+
+
+def value_flags() -> set:
+    """Option strings that take one value (by reflection over mypy's argparse table)."""
+    global _VALUE_FLAGS
+    if _VALUE_FLAGS is None:
+        import sys
+        from mypy.main import define_options
+
+        parser, _, _ = define_options("mypy", "", sys.stdout, sys.stderr, False)
+        _VALUE_FLAGS = set()
+        for a in parser._actions:
+            if a.option_strings and a.nargs is None and type(a).__name__ in ("_StoreAction", "_AppendAction"):
+                _VALUE_FLAGS.update(a.option_strings)
+    return _VALUE_FLAGS
+
+
 def safe_flags(flags: list) -> list:
     out = []
-    skip_next = False
-    for i, f in enumerate(flags):
-        if skip_next:
-            skip_next = False
+    vf = value_flags()
+    i = 0
+    while i < len(flags):
+        f = flags[i]
+        takes = f in vf and "=" not in f
+        val = flags[i + 1] if takes and i + 1 < len(flags) else None
+        step = 2 if takes and val is not None else 1
+        if f.startswith(UNSAFE_FLAG_PREFIXES) or f in ("-m", "-p", "-c") or not f.startswith("-") or (takes and val is None):
+            i += step
             continue
-        if f.startswith(UNSAFE_FLAG_PREFIXES) or f in ("-m", "-p", "-c"):
-            if "=" not in f and i + 1 < len(flags) and not flags[i + 1].startswith("-"):
-                skip_next = True
-            continue
-        if not f.startswith("-"):
-            continue  # stray positional
         out.append(f)
+        if takes:
+            out.append(val)
+        i += step
     return out
